@@ -14,8 +14,10 @@ Specification: `H3.Spec.Huffman` (RFC 7541 §5.2 + Appendix B as 257 code length
 
 D-15 (recorded, not repaired).  `check_eof` judges only the bits after the last level boundary of
 the decode tree, so the decoder accepts endings RFC 7541 §5.2 forbids.  The model keeps that
-behaviour and flags it (`Huffman.lax`, second component of `hdecodeX`); the strictness half of the
-property is therefore proved as `C15_huffman_accepts_exactly_partial`, the full statement
+behaviour and flags it (`Huffman.lax`, second component of `hdecodeX`, computed by `Huffman.laxAt` from the
+window `check_eof` accepted with; the flagged set is enumerated EXACTLY by `C15_huffman_lax_set_exact`, so the
+exclusion below is a fixed set of shapes and not "whatever the decoder accepts beyond the RFC"); the strictness
+half of the property is therefore proved as `C15_huffman_accepts_exactly_partial`, the full statement
 
     theorem C15_huffman_accepts_exactly (b s : List Nat) (hb : ∀ x ∈ b, x < 256) :
         Huffman.hdecode b = .ok s ↔ Spec.Huffman.specDecode b = some s
@@ -446,7 +448,11 @@ open H3.Bits H3.Spec.Huffman H3.Huffman in
         followed by at most eight ones (`18ef`: `10111|1`; `fe`: `11111110|`) — "padding not a prefix of EOS".
         Nothing else: in particular never a `q` with a zero bit, never more than eight unjudged bits behind the
         level boundary, never a `.unhandled` table slot.
-    (3) The same for `Huffman.lax`, the flag the driver prints. -/
+    (3) The same for `Huffman.lax`, the flag the driver prints.
+    (4) The flag is computed from the branch, not from the RFC: `Huffman.laxAt` takes the window `check_eof` was
+        called with (the level's window) and the start of the unfinished symbol, and says "bits consumed above the
+        level + bits judged > 7, or a consumed bit is zero"; on every accepting step that is `!padOK` (the RFC's
+        rule on the bits behind the last complete symbol). -/
 theorem C15_huffman_lax_set_exact (b : List Nat) (hb : ∀ x ∈ b, x < 256) :
     (∀ s l, hdecodeX b = .ok (s, l) ↔
       (∀ x ∈ s, x < 256) ∧ ∃ tail q, bitsOf b = enc s ++ tail ∧ walkL H3.Gen.HuffDec.root tail = .short q ∧
@@ -460,8 +466,10 @@ theorem C15_huffman_lax_set_exact (b : List Nat) (hb : ∀ x ∈ b, x < 256) :
       (∀ x ∈ s, x < 256) ∧ ∃ c q, bitsOf b = enc s ++ (c ++ q) ∧
         walkL H3.Gen.HuffDec.root (c ++ q) = .short q ∧
         (q = [] ∨ (q.length ≤ 8 ∧ ∀ x ∈ q, x = true)) ∧
-        (7 < c.length + q.length ∨ ∃ x ∈ c, x = false)) := by
-  refine ⟨fun s l => ?_, fun s => lax_iff b hb s, ?_⟩
+        (7 < c.length + q.length ∨ ∃ x ∈ c, x = false)) ∧
+    (∀ w w', w.endPos ≤ 8 * b.length → decodeNext H3.Gen.HuffDec.root w b = (w', .done) →
+      laxAt b w.endPos w' = !padOK b w.endPos) := by
+  refine ⟨fun s l => ?_, fun s => lax_iff b hb s, ?_, fun w w' hpos h => laxAt_eq b hb w w' hpos h⟩
   · rw [hdecodeX_iff b hb s l]
     simp only [eofOK_iff]
   · constructor
